@@ -54,6 +54,7 @@ type conn8 struct {
 	uni         bool // unidirectional transport, Client.Connect
 	seq0        int  // the scheduler's sequence number when the connect began
 	earlyDone   bool
+	twoClosers  bool // Shutdown's close() and an earlier close() both waited behind the reader: either may do the closing
 }
 
 // t8 is the recording transport plus the one natural gate cl.Transport does not offer: AcceptProtocol, which
@@ -724,6 +725,14 @@ func (r *run8) run(bi int, beh []map[string]any, ss, pushes bool, res *vh.Result
 				time.Sleep(30 * time.Millisecond)
 			}
 			shutBegun = true
+			for _, cc := range allConns() {
+				if vh.Str(tlaSeq(st["rd"], cc.n)) == "cn" && len(vh.List(tlaSeq(st["spawned"], cc.n))) > 1 {
+					cc.twoClosers = true
+					// Shutdown's close() of this connection has to wait behind the close() already blocked on connectMu:
+					// Shutdown must not return (some time for a Shutdown that does)
+					waitDone(r.shut, 300*time.Millisecond)
+				}
+			}
 		case "ShutDone":
 			if !waitDone(r.shut, gateWait) {
 				drift("", "Node.Shutdown did not return although every connection it found is closed")
@@ -818,6 +827,20 @@ func (r *run8) run(bi int, beh []map[string]any, ss, pushes bool, res *vh.Result
 				cc.mu.Unlock()
 				if n >= wantOut {
 					break
+				}
+			}
+		}
+		// Node.Shutdown must not return while a connection it found registered is still open: its close() of a connection
+		// waits for a close() of that connection that is already in flight
+		if shutBegun && !shutDone && r.shut != nil && isDone(r.shut) {
+			for _, cc := range allConns() {
+				// judged only while the reader is still inside OnConnect: the connection is in the hub whenever Shutdown takes
+				// its snapshot and no close() can have started, so a Shutdown that returned cannot have closed it
+				if vh.Str(tlaSeq(st["shc"], cc.n)) != "spawned" || vh.Str(tlaSeq(st["rd"], cc.n)) != "cn" || isDone(cc.reader) {
+					continue
+				}
+				if closed, _ := cc.t.Closed(); !closed {
+					violate("C08", "shutdown-returned:connection-still-open", fmt.Sprintf("Node.Shutdown returned although connection %d, registered when it began, is not closed (its OnConnect handler is still running with a close() blocked behind it, transport open, Hub().NumClients() = %d, callbacks %v): Shutdown's close() did not wait for the close() in flight; the connection becomes connected after the shutdown", cc.n, r.env.Node.Hub().NumClients(), cc.cbLog()))
 				}
 			}
 		}
@@ -920,6 +943,19 @@ func (r *run8) run(bi int, beh []map[string]any, ss, pushes bool, res *vh.Result
 				}
 			}
 			cc.mu.Unlock()
+			if cc.twoClosers {
+				// which of the two waiting close() calls got connectMu first is not controlled: the disconnect code is either's
+				for i := range fr {
+					if fr[i].T == "disc" {
+						fr[i].Code = 0
+					}
+				}
+				for i := range mo {
+					if mo[i].T == "disc" {
+						mo[i].Code = 0
+					}
+				}
+			}
 			if vh.J(fr) != vh.J(mo) && !(len(fr) == 0 && len(mo) == 0) {
 				drift("", fmt.Sprintf("frames of connection %d differ after %s: real %s, model %s", cc.n, vh.J(step), vh.J(fr), vh.J(mo)))
 				break
